@@ -164,6 +164,92 @@ func c03SpecExamples(c *ctx) {
 	}
 }
 
+// hand-built families that random zoo values hit only rarely
+func c03Families(c *ctx) {
+	thorough := c.tier == "thorough"
+	// (a) lists of every length 0..9, typed and untyped, in every header form (exhaustive choice space)
+	for n := 0; n <= 9; n++ {
+		var l32 []int32
+		var la []interface{}
+		for i := 0; i < n; i++ {
+			l32 = append(l32, int32(i))
+			la = append(la, int32(i))
+		}
+		c03Value(c, l32, fmt.Sprint("family:[]int32/", n), uint64(n), 0, 0, true)
+		c03Value(c, la, fmt.Sprint("family:[]interface{}/", n), uint64(n), 0, 0, true)
+		c03Value(c, &Lists{I32s: l32, Any: la}, fmt.Sprint("family:Lists/", n), uint64(n), 0, 0, true)
+	}
+	// (b) the type table: repeated literal types followed by references into the table
+	tt := []interface{}{[]int32{1}, []int32{2}, []string{"a"}, []string{"b"}, []int32{3}, []float64{1.5}, []string{"c"}, []float64{2.5}}
+	c03Value(c, tt, "family:type-table", 1, 0, 0, true)
+	c03Value(c, tt[:5], "family:type-table-5", 2, 0, 0, true)
+	for k := 0; k < 40; k++ {
+		c03Value(c, tt, "family:type-table", uint64(100+k), 0, 40, false)
+	}
+	// (c) long strings and byte slices in every two-chunk split around the chunk sizes
+	lens := []int{2049, 2050, 4100}
+	if thorough {
+		lens = append(lens, 2047, 2048, 4096, 4097, 6200)
+	}
+	for _, n := range lens {
+		s := mkString("mixed", n, -1, newRng(uint64(n), "c03-long"))
+		b := mkBytes(n*2, newRng(uint64(n), "c03-longb"))
+		for k := 0; k < 30; k++ {
+			c03Value(c, s, fmt.Sprint("family:string/", n), uint64(n*1000+k), 0, 1, false)
+			c03Value(c, b, fmt.Sprint("family:bytes/", 2*n), uint64(n*1000+k), 0, 1, false)
+		}
+		// explicit splits: 1 + (n-1), 2 + (n-2), (n-1) + 1
+		h := &hval{k: hString, s: s}
+		for _, first := range []int{1, 2, 2048, n - 1} {
+			c03Explicit(c, h, &fixedSplit{first: first}, fmt.Sprint("family:string-split/", n, "/", first), s)
+		}
+	}
+}
+
+// a chooser that makes one two-chunk split with a given first chunk and otherwise canonical choices
+type fixedSplit struct {
+	first int
+	calls int
+}
+
+func (f *fixedSplit) intn(n int) int {
+	f.calls++
+	switch f.calls {
+	case 1: // split(): pick(4) -> case 1 = two chunks
+		if n == 4 {
+			return 1
+		}
+	case 2: // the split point: k = 1 + intn(n-1)
+		if f.first-1 < n {
+			return f.first - 1
+		}
+	}
+	return 0
+}
+
+func c03Explicit(c *ctx, h *hval, ch chooser, label string, want string) {
+	bs, _, varied, err := renderChecked(h, ch)
+	if err != nil {
+		c.fail("harness: renderer failed", map[string]interface{}{"op": "explicit", "label": label}, err.Error(), "harness")
+		return
+	}
+	key := ""
+	if varied > 0 {
+		key = label
+	}
+	c.eval(key)
+	in := map[string]interface{}{"op": "explicit-rendering", "label": label, "bytes": hx(trunc(bs, 60))}
+	var d interface{}
+	o, m := guard(func() error { var e error; d, e = hessian.ToObject(bs, nil); return e })
+	if o != oOK {
+		c.fail("a legal rendering is rejected", in, o.String()+": "+truncS(m, 200), "")
+		return
+	}
+	if g, ok := d.(string); !ok || g != want {
+		c.fail("a legal rendering decodes to a different value than the encoder's own rendering", in, fmt.Sprintf("%T of length %d", d, len(g)), "")
+	}
+}
+
 func runC03(c *ctx) {
 	if rp, ok := c.extra["replay"].(string); ok {
 		in := loadReplay(rp)
@@ -182,6 +268,7 @@ func runC03(c *ctx) {
 	}
 	c.rule = "abstract values = reference parse of the encoder's own output for values of every zoo type (C01 generator), re-rendered by the certified reference encoder under seeded choice streams: every number form, string/binary chunk splits (two chunks at any point, one-item chunks, growing chunks, an empty non-final chunk, 2-octet final forms), typed lists as [x70-77]/'V'/x55..Z and untyped as [x78-7f]/x58/x57..Z, type names literal or by reference, instances as [x60-6f] or 'O' int, class definitions at first use or hoisted before an enclosing value; for small values the whole choice space is enumerated with an odometer (<= 400 renderings per value); plus the worked examples of the specification. Oracle: decode(rendering) has the same canonical form as decode(encoder's own rendering). Distinct by rendered bytes; non-trivial = differs from the canonical rendering in at least one choice."
 	c03SpecExamples(c)
+	c03Families(c)
 	n := 25
 	rend := 6
 	if c.tier == "thorough" {
